@@ -1645,7 +1645,7 @@ func main() {
 	_ = logging.Initialize(io.Discard, logging.FmtLogfmt, logging.LevelError, nil)
 	initPool()
 	hdr := "From Verif Require Import Lib.Base Registry.Model Gen.RegistryConsts.\n"
-	wb := coqout.NewWriter(*out, hdr, "run_case_b setnode_removals_first", "list_eqb obs_eqb", 60)
+	wb := coqout.NewWriter(*out, hdr, "run_case_b setnode_removals_first", "list_eqb obs_eqb", 26)
 	sum := coqout.NewSummary("seeded histories over a pool of 24 keys (1-3 entities, 4-7 node ids, sub-keys mostly 8-24): layer tx = RegisterEntity/DeregisterEntity/RegisterNode/RegisterRuntime transactions through ExecuteTx (runtimes 1-3, entity or runtime governance, callers right/wrong incl. runtime messages through ExecuteMessage, owner and governance changes, entity whitelists, suspension by the environment and resumption by node registration; node descriptors with roles validator/compute/observer/key manager and runtime lists) (transaction signer right/wrong, descriptor signatures full/one missing/one extra/one wrong/invalid) and epoch transitions through BeginBlock; layer state = SetNode/RemoveNode/SetEntity/SetRuntimeOwner called directly; node updates renew, rotate, swap, 3-cycle or take over P2P/VRF/TLS (state layer: also consensus) keys; non-trivial = the history contains an accepted node update that changed at least one sub-key; distinct = distinct operation lists")
 	var cases []Case
 	if *replay != "" {
